@@ -1,4 +1,5 @@
 import GopModel.Driver.Loop
 import GopModel.Driver.TplFront
 open GopModel.Driver
-def main : IO Unit := runDriver (dispatchWith [("tplparse", handleTplParse), ("tplprint", handleTplPrint)])
+def main : IO Unit := runDriver (dispatchWith
+  [("tplparse", handleTplParse), ("tplprint", handleTplPrint), ("tplnew", handleTplNew), ("tplcl", handleTplCl)])
